@@ -185,6 +185,19 @@ def corr(ctx):
             else:
                 fn, verb, site = enc.inverse_encode, "ml", "fec.encoders:reed_muller.inverse_encode"
             res = _dec(fn, W)
+            # the same hard bits handed over as uint8 / int64 / float64 tensors must decode to the same messages
+            import torch as _t
+            for dt_ in (_t.uint8, _t.int64, _t.float64):
+                try:
+                    o_ = fn(_t.tensor(W[:24], dtype=dt_))
+                    o_ = o_[0] if isinstance(o_, tuple) else o_
+                    alt = [bits(r_) for r_ in o_.tolist()]
+                except Exception as e_:
+                    alt = None         # a rejected dtype is an error, not a wrong answer
+                if alt is not None:
+                    badi = next((i_ for i_, (a_, b_) in enumerate(zip(alt, res[:24])) if a_ != b_), None)
+                    ops.append(Op("gray 0", "0", nontrivial=False, prop_ok=(badi is None),
+                                  info={"site": site + ".dtype", "config": dict(cfg, dtype=str(dt_), word=bits(W[badi]) if badi is not None else None, got=alt[badi] if badi is not None else None, float32_answer=res[badi] if badi is not None else None)}))
             info_set = ",".join(str(int(i)) for i in enc.information_set.tolist()) if kind == "ham" else None
             for i, (w, out) in enumerate(zip(W, res)):
                 sent = cases[i][1] if i < len(cases) else None
@@ -282,6 +295,10 @@ def search(ctx, mismatches, broken, prop_fail):
     seen = set()
     for pf in prop_fail + mismatches:
         cfg = pf["info"].get("config", {})
+        if str(pf["info"].get("site", "")).endswith(".dtype") and cfg.get("word"):
+            out.append({"site": pf["info"]["site"], "config": cfg, "kind": "failing-input", "ops": [],
+                        "what": "%s decoder on %s: the received word %s given as a %s tensor decodes to %s, as float32 to %s" % (cfg.get("decoder"), cfg.get("inst"), cfg.get("word"), cfg.get("dtype"), cfg.get("got"), cfg.get("float32_answer"))})
+            continue
         if not cfg.get("inst") or cfg.get("sent") is None:
             continue
         key = (cfg["inst"], cfg["decoder"])
